@@ -18,6 +18,7 @@ type LocalDB struct {
 	intx         bool
 	hasbegin     bool
 	kvs          []*types.KeyValue
+	txkvs        int // len(kvs) when the open transaction began
 	txid         *types.Int64
 	client       queue.Client
 	api          client.QueueProtocolAPI
@@ -84,6 +85,7 @@ func (l *LocalDB) Begin() {
 	l.keys = nil
 	l.txcache.Reset()
 	l.hasbegin = false
+	l.txkvs = len(l.kvs)
 }
 
 func (l *LocalDB) begin() {
@@ -107,6 +109,7 @@ func (l *LocalDB) save() error {
 			return err
 		}
 		l.kvs = nil
+		l.txkvs = 0
 	}
 	return nil
 }
@@ -142,6 +145,15 @@ func (l *LocalDB) ResetCache() {
 
 // Rollback 回滚修改
 func (l *LocalDB) Rollback() {
+	// writes of the rolled back transaction that are still buffered must not reach the database
+	// with the next save
+	if l.intx && l.txkvs <= len(l.kvs) {
+		if l.txkvs == 0 {
+			l.kvs = nil
+		} else {
+			l.kvs = l.kvs[:l.txkvs]
+		}
+	}
 	if l.hasbegin {
 		err := l.api.LocalRollback(l.txid)
 		if err != nil {
